@@ -913,7 +913,9 @@ pub fn c19(c: &Collector, g: &mut Guard) {
         c,
         &hbase,
         |_| {
-            let mut odd: Vec<char> = (0x80u32..0x300).filter_map(char::from_u32).collect();
+            // every character below U+0300 other than the two that end / escape the string: the C0
+            // controls (CAN, SUB, BS, CR, SO ... are payload inside an OSC string), DEL, the C1 range
+            let mut odd: Vec<char> = (0x0u32..0x300).filter(|u| *u != 0x07 && *u != 0x1b).filter_map(char::from_u32).collect();
             for hi in [0x300u32, 0x2200, 0x3000, 0x4e00, 0xff00, 0x1f400, 0x10ff00] {
                 for lo in [0x07u32, 0x9c, 0x1b, 0x5c, 0x3b, 0x30, 0x32, 0x18, 0x1a, 0x9d, 0x0a] {
                     if let Some(ch) = char::from_u32(hi + lo) {
@@ -1233,6 +1235,22 @@ pub fn c11(c: &Collector, g: &mut Guard) {
                     let one: Vec<Vec<u8>> = bytes.iter().map(|x| vec![*x]).collect();
                     c11_case(cc, &one, true, &mut l, "E3.scalars", "C11");
                 }
+                // every proper prefix of the encoding, invalidated by an ASCII byte, a lead byte
+                // or the end of a CSI (maximal-subpart rule: one U+FFFD for the whole prefix)
+                let enc = ch.to_string().into_bytes();
+                for k in 1..enc.len() {
+                    for next in [vec![0x41u8], vec![0xc3, 0xa9], vec![0x1b, b'[', b'2', b'C'], vec![0xf0]] {
+                        let mut w = vec![b'p'];
+                        w.extend_from_slice(&enc[..k]);
+                        w.extend_from_slice(&next);
+                        w.push(b'q');
+                        for chunks in all_chunkings(&w) {
+                            if chunks.len() <= 3 {
+                                c11_case(cc, &chunks, true, &mut l, "E3.truncated-scalars", "C11");
+                            }
+                        }
+                    }
+                }
             }
             cc.count("scalar_cases", l.n);
         } else if part == 1 {
@@ -1262,6 +1280,9 @@ pub fn c11(c: &Collector, g: &mut Guard) {
                 vec![b'x', 0xe2, 0x82],
                 vec![0xac, b'y'],
                 vec![0xc3],
+                // a BOM that is not at the start of the stream is a character like any other, also
+                // after the decoder has been through a mode switch
+                vec![0xef, 0xbb, 0xbf, b'b'],
             ];
             let reference = |chunks: &[Vec<u8>], sw: &[&str], flush_as_fffd: bool| -> Vec<Op> {
                 let mut utf8 = true;
